@@ -171,8 +171,20 @@ def check(prop, tier, replay=None):
 
     # quotas -> inconclusive
     unmet = []
+    waived, required = set(), {}
+    for extra_key, keys in getattr(mod, "QUOTA_WAIVERS", {}).items():
+        # a hooked internal is gone (refactoring): the quotas of that monitor are waived, the API-boundary quotas named by the
+        # property module still have to be met
+        if m["extra"].get(extra_key, 0) > 0:
+            waived.update(keys["waive"])
+            required.update(keys.get("require", {}))
+            print(f"NOTE property={prop} {extra_key}: deciding at the API boundary only ({len(keys['waive'])} quota(s) waived, {len(keys.get('require', {}))} required instead)")
     if not replay:
-        for key, need in getattr(mod, "QUOTAS", {}).get(tier, {}).items():
+        quotas = dict(getattr(mod, "QUOTAS", {}).get(tier, {}))
+        quotas.update(required)
+        for key, need in quotas.items():
+            if key in waived:
+                continue
             if key.startswith("class:"):
                 got = m["classes"].get(key[6:], 0)
             elif key.startswith("extra:"):
